@@ -279,6 +279,7 @@ class Result:
         os.makedirs(os.path.join(ROOT, 'evidence'), exist_ok=True)
         os.makedirs(os.path.join(ROOT, 'replays'), exist_ok=True)
         lines = []
+        self.violations.sort(key=lambda v: v[1])      # concrete failing inputs first
         for i, (rep, nf) in enumerate(self.violations[:5]):
             path = os.path.join(ROOT, 'replays', '%s_%s_%d.json' % (self.prop, seed(), i))
             rep = dict(rep)
